@@ -1,6 +1,6 @@
 SPECIFICATION Spec
 CONSTANTS
-  Wide = FALSE
+  Wide = TRUE
   Kinds = {"vec", "alvec"}
 INVARIANT RoundTrip
 INVARIANT VecRoundTrip
